@@ -1,9 +1,9 @@
 SPECIFICATION Spec
 CONSTANTS
   Systems <- MCSystems
-  Comp <- MCCompX
+  Comp <- MCCompCX
   Rxns <- MCRxns
-  MaxOps = 3
+  MaxOps = 4
 VIEW View
 PROPERTY AlignedUnlessFailed
 PROPERTY FitUsesCurrent
